@@ -54,7 +54,14 @@ def configs():
     from jsonrpclib.config import Config, DEFAULT
     return [("default", DEFAULT), ("v1", Config(version=1.0)),
             ("nojsonclass", Config(use_jsonclass=False)),
-            ("v1-nojsonclass", Config(version=1.0, use_jsonclass=False))]
+            ("v1-nojsonclass", Config(version=1.0, use_jsonclass=False)),
+            # a custom Config that converts differently from the default one: whatever is converted for a message built
+            # with it (here: the data of a Fault) is converted by ITS rules
+            ("handlers", Config(serialize_handlers={decimal.Decimal: _decimal_handler}))]
+
+
+def _decimal_handler(obj, serialize_method, ignore_attribute, ignore, config):
+    return "D:" + str(obj)
 
 
 def eff_version(version, config):
@@ -170,7 +177,7 @@ def judge(ctx, st, api, method, params, rpcid, version, mresp, notify, cname, co
             ctx.count("unjudged:fault-data-needing-class-translation-with-translation-off")
             return False
         if fdata is not None:
-            err["data"] = _norm_data(fdata) if _exotic(fdata) else gen.jn(fdata)
+            err["data"] = _norm_data(fdata, config) if _exotic(fdata) else gen.jn(fdata)
         exp["error"] = err
         exp["id"] = rpcid
         if v >= 2:
@@ -298,15 +305,18 @@ def _exotic(x):
     return False
 
 
-def _norm_data(x):
+def _norm_data(x, config=None):
     """What the class translator makes of plain data: sets (of one element here) and tuples become lists,
-    a Decimal becomes its class descriptor."""
+    a Decimal becomes its class descriptor - or what the Config's own handler for Decimals returns."""
     if isinstance(x, decimal.Decimal):
+        handler = getattr(config, "serialize_handlers", {}).get(decimal.Decimal)
+        if handler is not None:
+            return handler(x, None, None, None, config)
         return {"__jsonclass__": ["decimal.Decimal", [str(x)]]}
     if isinstance(x, (list, tuple, set, frozenset)):
-        return [_norm_data(v) for v in x]
+        return [_norm_data(v, config) for v in x]
     if isinstance(x, dict):
-        return {k: _norm_data(v) for k, v in x.items()}
+        return {k: _norm_data(v, config) for k, v in x.items()}
     return x
 
 
